@@ -67,6 +67,11 @@ type ScriptPlan struct {
 	// FragmentLen (hellos without ECH / GREASE): pad the hello so that the
 	// record fragment has exactly this many octets.
 	FragmentLen int    `json:"fragment_len,omitempty"`
+	// InnerMsgLen (accepted hellos): an opaque extension of the compressed run is
+	// grown - in the outer and in the inner hello - until the reconstructed
+	// ClientHelloInner handshake message has exactly this many octets (2^14 is
+	// the most a plaintext record holds).
+	InnerMsgLen int `json:"inner_msg_len,omitempty"`
 	RecVer      uint16 `json:"rec_ver"`
 	LegacyVer   uint16 `json:"legacy_ver,omitempty"`  // ClientHello.legacy_version of a plain hello (0 = 0x0303)
 	Compression []byte `json:"compression,omitempty"` // legacy_compression_methods of a plain hello (nil = {0})
@@ -293,6 +298,30 @@ func buildScript(seed uint64, p *ScriptPlan) (*built, error) {
 	}
 	if needRun := minRunFor(p.Mutations); to-from < needRun {
 		return nil, errSkip
+	}
+	if p.InnerMsgLen > 0 {
+		grown := false
+		for i := to - 1; i >= from && !grown; i-- {
+			t := inner.Exts[i].Type
+			if t == echbox.ExtSNI || t == echbox.ExtALPN || t == echbox.ExtVersions || t == echbox.ExtKeyShare || t == echbox.ExtECH || t == 41 || t == 42 || t == 0xfd00 {
+				continue
+			}
+			o := outer.Find(t)
+			cur := 4 + len(inner.Body())
+			if o < 0 || cur > p.InnerMsgLen || !bytes.Equal(outer.Exts[o].Data, inner.Exts[i].Data) {
+				continue
+			}
+			fill := make([]byte, p.InnerMsgLen-cur)
+			for k := range fill {
+				fill[k] = byte(0x30 + k%64)
+			}
+			inner.Exts[i].Data = append(append([]byte(nil), inner.Exts[i].Data...), fill...)
+			outer.Exts[o].Data = append([]byte(nil), inner.Exts[i].Data...)
+			grown = true
+		}
+		if !grown {
+			return nil, errSkip
+		}
 	}
 	b.inner = inner
 	b.from, b.to = from, to
@@ -725,8 +754,11 @@ func buildScript(seed uint64, p *ScriptPlan) (*built, error) {
 			b.outerRec = echbox.Record(22, recVer, append(echbox.Handshake(1, body), zeros...))
 		}
 	}
-	if len(b.outerRec) > 5+16384 {
-		return nil, errSkip // not a legal plaintext record
+	if len(b.outerRec) > 5+16384 && (p.InnerMsgLen == 0 || len(b.outerRec) > 5+16384+2048) {
+		// not a legal plaintext record. (Plans that size the INNER hello to the
+		// limit need an outer record beyond it: the library takes records of up
+		// to 2^14+2048 octets, and whatever it accepts it must reconstruct.)
+		return nil, errSkip
 	}
 	if p.Expect == "accept" {
 		in, err := echbox.DecodeInner(encoded, o2)
